@@ -25,6 +25,7 @@ TRUSTED_BASE = [
     "pairwise mean)",
     "PyYAML dump/load of the output; SQLite view average_rising_depth",
 ]
+SQL_TIE = ('simulate_rise',)
 ASSUMPTIONS = ["increasing level grids; specific yield positive for the monotonicity clause"]
 RULE = ("specific-yield parameter sets of both kinds x increasing grids inside, straddling and beyond the knot range, "
         "through simulate_rise.compute_rise_curve; `spowtd simulate rise` with and without --observations on planted "
@@ -143,6 +144,8 @@ def run(ctx):
         levels = [r[0] for r in view]
         measured = [r[1] for r in view]
         params = sim.spline_params(rng, min(levels), max(levels)) if rng.random() < 0.6 else sim.peatclsm_params(rng, max(levels))
+        if rng.random() < 0.3:
+            params = sim.mixed_params(rng, min(levels), max(levels))
         sy, _T = sim.make_functions(params)
         inp = {"truth": tr.describe(), "zeta_step": zstep, "parameters": params}
         r1, text1 = sim.simulate_cli(ctx, "rise", w["db"], params, False)
@@ -153,8 +156,14 @@ def run(ctx):
             ctx.violation("impl-violation", "c17Holds", {"input": inp, "impl": [list(r1), list(r2)], "oracle": {
                 "name": "c17Holds", "result": False, "witness": {"why": "simulate rise failed", "status": [list(r1), list(r2)]}}})
             continue
-        table = yaml.safe_load(text1)
-        vector = yaml.safe_load(text2)
+        table, bad1 = sim.parse_table(text1)
+        vector, bad2 = sim.parse_vector(text2)
+        if bad1 or bad2:
+            # (the output files are written to the same paths by successive commands, as PEST's model command does)
+            ctx.violation("impl-violation", "c17Holds", {"input": inp, "impl": {"table": text1[:400], "vector": text2[:200]}, "oracle": {
+                "name": "c17Holds", "result": False,
+                "witness": {"why": "the output of `simulate rise` is not the table / vector of the curve: " + (bad1 or bad2)}}})
+            continue
         W = check_curve(ctx, sy, levels, float(np.mean(measured)), dict(inp, via="levels of the measured master curve"))
         rows = table[1:]
         wit = None
